@@ -429,7 +429,9 @@ func (e *Env) runClient(c int, ops []Op) {
 		e.call(c, op)
 	}
 	if c == 0 {
-		e.ensureRunning(0)
+		if !e.c.Cfg.NoCtrlTail {
+			e.ensureRunning(0)
+		}
 		e.ctrlDone = true
 	}
 	e.clientsLeft--
